@@ -26,8 +26,12 @@ Fixpoint str_eqb (a b : str) : bool :=
 Record ref := mkref { rf_did : str; rf_frag : str }.
 Definition ref_str (r : ref) : str := rf_did r ++ HASH :: rf_frag r.
 
-(* a keyAgreement entry: id written relative ("#frag") or absolute ("did#frag"), its key *)
-Record vmeth := mkvm { vm_rel : bool; vm_frag : str; vm_key : N }.
+(* a keyAgreement entry: id written relative ("#frag") or absolute ("did#frag"), its key, and whether a key can
+   be built from it (vm_ok = false: a verification-method type the resolvers do not support — X25519KeyAgreementKey2020,
+   Ed25519VerificationKey2018, Multikey, any foreign suite — or an entry without key material) *)
+Record vmeth := mkvm { vm_rel : bool; vm_frag : str; vm_key : N; vm_ok : bool }.
+(* result of resolving against one document *)
+Inductive fres := FKey (k : N) | FNone | FErr.
 Record ddoc := mkdoc { dd_id : str; dd_kas : list vmeth }.
 Definition directory := list ddoc.
 
@@ -38,34 +42,42 @@ Fixpoint vdr (d : directory) (did : str) : option ddoc :=
   end.
 
 (* packager: the part of each entry's id after '#' is compared with the requested fragment; first match *)
-Fixpoint pk_find (kas : list vmeth) (frag : str) : option N :=
+(* the type of an entry is looked at only AFTER its fragment matched (marshalKeyFromVerificationMethod) *)
+Fixpoint pk_find (kas : list vmeth) (frag : str) : fres :=
   match kas with
-  | [] => None
-  | v :: r => if str_eqb (vm_frag v) frag then Some (vm_key v) else pk_find r frag
+  | [] => FNone
+  | v :: r => if str_eqb (vm_frag v) frag then (if vm_ok v then FKey (vm_key v) else FErr) else pk_find r frag
   end.
 Definition pk_resolve (d : directory) (r : ref) : option N :=
-  match vdr d (rf_did r) with Some doc => pk_find (dd_kas doc) (rf_frag r) | None => None end.
+  match vdr d (rf_did r) with
+  | Some doc => match pk_find (dd_kas doc) (rf_frag r) with FKey k => Some k | _ => None end
+  | None => None
+  end.
 
 (* kid resolver (unpack side): the entry's full id (relative ids get the document id in front) is compared
    with the whole kid; Fixed: first match; AsIs: the result of the LAST loop iteration *)
 Definition vm_full_id (doc : ddoc) (v : vmeth) : str := dd_id doc ++ HASH :: vm_frag v.
-Fixpoint dr_first (doc : ddoc) (kas : list vmeth) (kid : str) : option N :=
+(* extractKey: an entry whose id does not match the kid contributes nothing, whatever its type; the matching
+   entry yields its key or, for an unsupported type, an error *)
+Definition dr_entry (doc : ddoc) (v : vmeth) (kid : str) : fres :=
+  if str_eqb (vm_full_id doc v) kid then (if vm_ok v then FKey (vm_key v) else FErr) else FNone.
+Fixpoint dr_first (doc : ddoc) (kas : list vmeth) (kid : str) : fres :=
   match kas with
-  | [] => None
-  | v :: r => if str_eqb (vm_full_id doc v) kid then Some (vm_key v) else dr_first doc r kid
+  | [] => FNone
+  | v :: r => match dr_entry doc v kid with FNone => dr_first doc r kid | x => x end
   end.
-Fixpoint dr_last (doc : ddoc) (kas : list vmeth) (kid : str) (acc : option N) : option N :=
+Fixpoint dr_last (doc : ddoc) (kas : list vmeth) (kid : str) (acc : fres) : fres :=
   match kas with
   | [] => acc
-  | v :: r => dr_last doc r kid (if str_eqb (vm_full_id doc v) kid then Some (vm_key v) else None)
+  | v :: r => match dr_entry doc v kid with FErr => FErr | x => dr_last doc r kid x end
   end.
 Definition dr_resolve (v : variant) (d : directory) (r : ref) : rres :=
   match vdr d (rf_did r) with
   | None => RErr
   | Some doc =>
       match v with
-      | Fixed => match dr_first doc (dd_kas doc) (ref_str r) with Some k => RKey k | None => RErr end
-      | AsIs => match dr_last doc (dd_kas doc) (ref_str r) None with Some k => RKey k | None => RNil end
+      | Fixed => match dr_first doc (dd_kas doc) (ref_str r) with FKey k => RKey k | _ => RErr end
+      | AsIs => match dr_last doc (dd_kas doc) (ref_str r) FNone with FKey k => RKey k | FNone => RNil | FErr => RErr end
       end
   end.
 (* the abstract key reference of Model.v that stands for this string *)
@@ -73,8 +85,8 @@ Definition kref_of (d : directory) (r : ref) : kref :=
   match vdr d (rf_did r) with
   | None => KUnres 0
   | Some doc => match dr_first doc (dd_kas doc) (ref_str r) with
-                | Some k => KDoc k (match dr_last doc (dd_kas doc) (ref_str r) None with Some _ => true | None => false end)
-                | None => KUnres 0
+                | FKey k => KDoc k (match dr_last doc (dd_kas doc) (ref_str r) FNone with FKey _ => true | _ => false end)
+                | _ => KUnres 0
                 end
   end.
 
